@@ -119,7 +119,9 @@ def run(ctx: evid.Ctx) -> None:
     ks = U.kinds(big=thorough, depth3=thorough)
     _STATE["kinds"] = ks
     _STATE["suffixes"] = SUFFIXES_THOROUGH if thorough else SUFFIXES_QUICK
-    for m in U.big_messages():
+    # twice, in one process and with one options object: the second pass sees whatever the first left behind
+    # (caches, counters, interned values) -- a decode must not depend on what was decoded before it
+    for m in U.big_messages() + U.big_messages():
         ctx.add("states")
         ctx.add("transitions", 6)
         r = check_one(m, SUFFIXES_QUICK)
